@@ -33,6 +33,9 @@ type Behaviour struct {
 	DeployFail    bool           `json:"deploy_fail"`
 	DeployDelayMs int            `json:"deploy_delay_ms"`
 	IgnoreCancel  bool           `json:"ignore_cancel"` // a hanging step that does not react to the cancel signal
+	// the deployment does not watch its context: it takes DeployDelayMs and then succeeds (or fails as scripted) even when the
+	// step was closed or stopped meanwhile, as a deployer that pulls an image or waits for a scheduler would
+	DeployIgnoresCtx bool `json:"deploy_ignores_ctx"`
 	ProbeCloseFail bool          `json:"probe_close_fail"` // while the schema is probed, the write of the ATP "client done" message fails
 	Data          map[string]any `json:"data"`          // overrides of the produced output fields
 }
@@ -313,7 +316,9 @@ func (c *sdConnector) Deploy(ctx context.Context, image string) (deployer.Plugin
 	}
 	b := s.get(image)
 	probing := s.probe.Load()
-	if b.DeployDelayMs > 0 && !probing {
+	if b.DeployDelayMs > 0 && !probing && b.DeployIgnoresCtx {
+		time.Sleep(time.Duration(b.DeployDelayMs) * time.Millisecond)
+	} else if b.DeployDelayMs > 0 && !probing {
 		select {
 		case <-time.After(time.Duration(b.DeployDelayMs) * time.Millisecond):
 		case <-ctx.Done():
